@@ -298,7 +298,12 @@ func doSitesOn(c *mon.Case, a align.Alignment, before gen.Rows, aa bool, o clean
 	case wrapper:
 		first, last, kept, rm = a.RemoveGapSites(o.Cutoff, o.Ends)
 	default:
-		first, last, kept, rm = a.RemoveCharacterSites([]uint8(o.Chars), o.Cutoff, o.Ends, o.IgnCase, o.IgnGaps, o.IgnNs, o.Reverse)
+		cs := []uint8(o.Chars)
+		first, last, kept, rm = a.RemoveCharacterSites(cs, o.Cutoff, o.Ends, o.IgnCase, o.IgnGaps, o.IgnNs, o.Reverse)
+		if string(cs) != o.Chars {
+			// the caller's character set is an input: a second cleaning with the same slice must mean the same characters
+			c.Failf(op+":character-set-modified", "the character set given to the call was %q, it is %q afterwards (opts=%+v)", o.Chars, cs, o)
+		}
 	}
 	after := h.Snap(a)
 	st := checkSites(c, op, before, aa, o, first, last, kept, rm, after, a.Length())
